@@ -752,6 +752,102 @@ pub fn gen_ops(rng: &mut Rng, c: &mut Case, profile: Profile, nops: usize) {
     }
 }
 
+/// corrupt one or more metadata words / header fields of a valid image; returns what was done
+pub fn mutate_image(rng: &mut Rng, img: &mut Vec<u8>) -> String {
+    let (cb, l1_off, l1_n, rt_off, rt_clusters) = match FileView::new(img) {
+        Some(v) => (v.cb, v.l1_off as usize, v.l1_n as usize, v.rt_off as usize, v.rt_clusters as usize),
+        None => return "none".into(),
+    };
+    let cs = 1usize << cb;
+    let nclusters = (img.len() / cs).max(1) as u64;
+    let rd64 = |img: &Vec<u8>, o: usize| -> u64 {
+        if o + 8 <= img.len() { u64::from_be_bytes(img[o..o + 8].try_into().unwrap()) } else { 0 }
+    };
+    let wr64 = |img: &mut Vec<u8>, o: usize, v: u64| {
+        if o + 8 <= img.len() {
+            img[o..o + 8].copy_from_slice(&v.to_be_bytes());
+        }
+    };
+    let weird = |rng: &mut Rng| -> u64 {
+        match rng.below(8) {
+            0 => rng.next(),
+            1 => (rng.below(nclusters * 2) * cs as u64) | (1 << 63),
+            2 => rng.below(nclusters) * cs as u64 + 512,
+            3 => u64::MAX,
+            4 => (1 << 62) | (rng.next() & 0x3fff_ffff_ffff_ffff),
+            5 => (rng.below(1 << 20) * cs as u64) | (1 << 63),
+            6 => 0,
+            _ => (rng.below(nclusters) * cs as u64) | (rng.below(256) << 56) | (1 << 63),
+        }
+    };
+    let mut done = Vec::new();
+    let n = rng.range(1, 3);
+    for _ in 0..n {
+        match rng.below(6) {
+            0 => {
+                // header field
+                let fields: [(usize, usize); 9] = [(20, 4), (24, 8), (36, 4), (40, 8), (48, 8), (56, 4), (96, 4), (100, 4), (8, 8)];
+                let (o, l) = *rng.pick(&fields);
+                let v = match rng.below(4) {
+                    0 => rng.next(),
+                    1 => 0,
+                    2 => u64::MAX,
+                    _ => rng.below(1 << 20) * cs as u64,
+                };
+                let b = v.to_be_bytes();
+                img[o..o + l].copy_from_slice(&b[8 - l..]);
+                done.push(format!("hdr@{}", o));
+            }
+            1 => {
+                if l1_n > 0 {
+                    let i = rng.below(l1_n as u64) as usize;
+                    let v = weird(rng);
+                    wr64(img, l1_off + i * 8, v);
+                    done.push(format!("l1[{}]={:x}", i, v));
+                }
+            }
+            2 => {
+                // an L2 entry of an existing table
+                let tables: Vec<usize> = (0..l1_n).map(|i| (rd64(img, l1_off + i * 8) & 0x00ff_ffff_ffff_fe00) as usize).filter(|o| *o != 0).collect();
+                if !tables.is_empty() {
+                    let t = *rng.pick(&tables);
+                    let j = rng.below((cs / 8) as u64) as usize;
+                    let v = weird(rng);
+                    wr64(img, t + j * 8, v);
+                    done.push(format!("l2@{:x}[{}]={:x}", t, j, v));
+                }
+            }
+            3 => {
+                let n_rt = rt_clusters * cs / 8;
+                if n_rt > 0 {
+                    let i = rng.below((n_rt as u64).min(8)) as usize;
+                    let v = weird(rng) & !(1 << 63);
+                    wr64(img, rt_off + i * 8, v);
+                    done.push(format!("rt[{}]={:x}", i, v));
+                }
+            }
+            4 => {
+                // refcount bytes
+                let rb = (rd64(img, rt_off) & 0xffff_ffff_ffff_fe00) as usize;
+                if rb != 0 && rb + cs <= img.len() {
+                    for _ in 0..rng.range(1, 16) {
+                        let o = rb + rng.below(cs as u64 / 4) as usize;
+                        img[o] = if rng.chance(1, 2) { 0 } else { rng.next() as u8 };
+                    }
+                    done.push("refcounts".into());
+                }
+            }
+            _ => {
+                // truncate the file
+                let keep = rng.range(1, nclusters) as usize * cs;
+                img.truncate(keep);
+                done.push(format!("truncate@{}", keep));
+            }
+        }
+    }
+    done.join("+")
+}
+
 /// the metadata seen through a file alone (no caches): used after flush
 pub struct FileView<'a> {
     pub file: &'a [u8],
@@ -882,6 +978,8 @@ pub struct Runner {
     /// faults are cleared before the final flush
     pub results: Vec<String>,
     pub fault_mode: bool,
+    /// malformed-image runs: no state dumps, no reopen sweeps (only results matter)
+    pub quiet: bool,
 }
 
 fn classify(e: &qcow2_rs::error::Qcow2Error) -> &'static str {
@@ -891,7 +989,7 @@ fn classify(e: &qcow2_rs::error::Qcow2Error) -> &'static str {
 
 impl Runner {
     pub fn new(case: Case, files: Vec<SimFile>, dump_dir: Option<String>) -> Self {
-        Runner { case, files, out: Vec::new(), dump_dir, n_flush: 0, results: Vec::new(), fault_mode: false }
+        Runner { case, files, out: Vec::new(), dump_dir, n_flush: 0, results: Vec::new(), fault_mode: false, quiet: false }
     }
 
     fn emit(&mut self, k: usize, s: String) {
@@ -900,6 +998,9 @@ impl Runner {
 
     /// dump the RAM view (non-perturbing)
     fn dump_state(&mut self, k: usize, dev: &Qcow2Dev<SimFile>, cur_l2: Option<(u8, usize)>, cur_rb: Option<(u8, usize)>) {
+        if self.quiet {
+            return;
+        }
         let snap = dev.verif_snapshot();
         let file = self.files[0].snapshot();
         let cb = self.case.cb;
@@ -959,6 +1060,9 @@ impl Runner {
 
     /// dump the metadata as the file alone shows it (after a successful flush)
     fn dump_file(&mut self, k: usize) {
+        if self.quiet {
+            return;
+        }
         let file = self.files[0].snapshot();
         let cs = 1u64 << self.case.cb;
         if let Some(fv) = FileView::new(&file) {
@@ -987,6 +1091,9 @@ impl Runner {
 
     /// open fresh devices on a copy of the current files and read the whole disk
     fn reopen_sweep(&mut self, k: usize) {
+        if self.quiet {
+            return;
+        }
         let copies: Vec<SimFile> = self.files.iter().map(|f| SimFile::new("copy", f.snapshot())).collect();
         let mut rng = Rng::derive(self.case.seed, 77, (self.case.id * 1000 + k) as u64);
         // one reopen with the same parameters, one with different ones
